@@ -52,7 +52,7 @@ def posterior_ob(prog, cls, ctx):
 
 def obligations(tier):
     prog = model.load()
-    return [posterior_ob(prog, cls, ctx) for cls in drivers.COND_CLASSES for ctx in drivers.BATCH_CTX]
+    return [posterior_ob(prog, cls, ctx) for cls in drivers.COND_CLASSES for ctx in drivers.BATCH_CTX + drivers.ROUTE_CTX]
 
 
 FLOORS = {"group:posterior": 12}
